@@ -23,7 +23,7 @@ BUDGET = {"quick": 500, "thorough": 3400}
 CHUNK = 30
 ASSUMPTIONS = [
     "virtual clock installed in every csvpath module that imported datetime (13 modules); uuids/timestamps are not compared",
-    "when several runs share the extreme second any of them is accepted for :last/:first (the statement orders different seconds only)",
+    "when two runs share the extreme second either is accepted for :last/:first (their names sort alike); from three runs on :last must be the last one started",
     "canonical-state merge: the future depends only on the directory names per group, the clock and what the live instance has run",
 ]
 
@@ -202,6 +202,10 @@ def run_history(hist):
                 for which in ("last", "first"):
                     ext = max(t for t, d in cands) if which == "last" else min(t for t, d in cands)
                     ok_dirs = [d for t, d in cands if t == ext]
+                    if which == "last" and len(ok_dirs) >= 3:
+                        # within one second the suffix orders the runs from the third on (<second>, <second>.0 sort alike, <second>.1
+                        # and later sort after them): the most recent run is the last one started
+                        ok_dirs = [ok_dirs[-1]]
                     if not all(collecting.get((gg, d)) for d in ok_dirs):
                         continue  # the extreme run kept no data.csv (fast_forward/next without collect): nothing to resolve to
                     ref = f"${gg}.results.{prefix}:{which}.{FIRST_ID[gg]}"
